@@ -51,6 +51,9 @@ def history_case(ctx, rng, idx, pending):
     dumps = []
     hist_case = {'dumps': [], 'objects': with_objects}
     ok = True
+    upfront = rng.random() < 0.4     # all dump steps constructed before the first one runs
+    hist_case['built_up_front'] = upfront
+    plans = []
     for d in range(ndumps):
         mode = rng.choice(['rewrite', 'append', 'update', 'update'])
         rows = gen_rows(rng, rng.choice([0, 1, 2, 5, 9]), with_objects)
@@ -80,13 +83,16 @@ def history_case(ctx, rng, idx, pending):
             steps.append(DF.filter_rows(equals=[{'id': -1}]))
         if pk:
             steps.append(DF.set_primary_key(list(key_choice)))
-        steps.append(DF.dump_to_sql({'t': cfg}, engine=engine, updated_column='upd', batch_size=bs, use_bloom_filter=bloom))
         desc = {'mode': mode, 'keys': key_choice if mode == 'update' else None, 'keys_from_pk': pk, 'rows': canon._plain(rows),
                 'batch_size': bs, 'bloom': bloom}
+        mk = (lambda steps=steps, cfg=cfg, bs=bs, bloom=bloom: Flow(*steps, DF.dump_to_sql(
+            {'t': copy.deepcopy(cfg)}, engine=engine, updated_column='upd', batch_size=bs, use_bloom_filter=bloom)))
+        plans.append((mode, rows, desc, mk() if upfront else mk))
+    for d, (mode, rows, desc, flow) in enumerate(plans):
         hist_case['dumps'].append(desc)
         try:
             with quiet():
-                res, dp, _ = Flow(*steps).results(on_error=None)
+                res, dp, _ = (flow if upfront else flow()).results(on_error=None)
         except Exception as e:  # noqa
             rep.case('dump', hist_case, nontrivial=False)
             rep.fail('dump-raises:%s' % mode, copy.deepcopy(hist_case), repr(e)[:300])
